@@ -178,6 +178,23 @@ func GenProgram(t *rapid.T, cfg GenCfg) Program {
 			} else {
 				p.Ops = append(p.Ops, Op{K: "revert", Sel: rapid.IntRange(0, 15).Draw(t, "sel"), On: rapid.IntRange(0, 2).Draw(t, "orphan") == 0})
 			}
+		case "reuseseq":
+			// a snapshot is removed, its name is used again, more snapshots follow, and the
+			// new snapshot of that name is removed as well - within one life of the process,
+			// so whatever the first removal left on the replica's books is still there
+			x := fmt.Sprintf("s%d", len(names))
+			c1, c2, c3 := fmt.Sprintf("s%d", len(names)+1), fmt.Sprintf("s%d", len(names)+2), fmt.Sprintf("s%d", len(names)+3)
+			names = append(names, x, c1, c2, c3)
+			nsnaps += 4
+			p.Ops = append(p.Ops, genWrite(t, size), Op{K: "snap", Name: x}, genWrite(t, size), Op{K: "snap", Name: c1}, genWrite(t, size), Op{K: "snap", Name: c2},
+				Op{K: "setcp", On: true}, Op{K: "remove", Name: x, Sel: rapid.IntRange(0, 15).Draw(t, "sel")},
+				genWrite(t, size), Op{K: "snap", Name: x}, genWrite(t, size), Op{K: "snap", Name: c3}, genWrite(t, size), Op{K: "snap", Name: fmt.Sprintf("s%d", len(names))},
+				Op{K: "setcp", On: true}, Op{K: "remove", Name: x, Sel: rapid.IntRange(0, 15).Draw(t, "sel2")})
+			names = append(names, fmt.Sprintf("s%d", len(names)))
+			nsnaps += 3
+			if rapid.Bool().Draw(t, "reopenafter") {
+				p.Ops = append(p.Ops, Op{K: "reopen", On: rapid.Bool().Draw(t, "preload")})
+			}
 		case "delpunch":
 			// a user snapshot that is already there when the replica is (re)opened, a second
 			// one taken afterwards, automatic snapshots on top, a deletion, and then
